@@ -730,6 +730,13 @@ class Server(utils.EventEmitter):
         See Bluetooth spec Vol 3, Part F - 3.4.3.3 Find By Type Value Request
         '''
 
+        async def value_matches(attribute: att.Attribute) -> bool:
+            try:
+                return (await attribute.read_value(bearer)) == request.attribute_value
+            except att.ATT_Error:
+                # An attribute that cannot be read on this bearer is never a match
+                return False
+
         # Build list of returned attributes
         pdu_space_available = bearer.att_mtu - 2
         attributes = []
@@ -740,7 +747,7 @@ class Server(utils.EventEmitter):
             if attribute.handle >= request.starting_handle
             and attribute.handle <= request.ending_handle
             and attribute.type == request.attribute_type
-            and (await attribute.read_value(bearer)) == request.attribute_value
+            and await value_matches(attribute)
             and pdu_space_available >= 4
         ):
             # TODO: check permissions
@@ -957,6 +964,11 @@ class Server(utils.EventEmitter):
 
         pdu_space_available = bearer.att_mtu - 2
         attributes: list[tuple[int, int, bytes]] = []
+        response = att.ATT_Error_Response(
+            request_opcode_in_error=request.op_code,
+            attribute_handle_in_error=request.starting_handle,
+            error_code=att.ATT_ATTRIBUTE_NOT_FOUND_ERROR,
+        )
         for attribute in (
             attribute
             for attribute in self.attributes
@@ -965,9 +977,18 @@ class Server(utils.EventEmitter):
             and attribute.handle <= request.ending_handle
             and pdu_space_available
         ):
-            # No need to catch permission errors here, since these attributes
-            # must all be world-readable
-            attribute_value = await attribute.read_value(bearer)
+            try:
+                attribute_value = await attribute.read_value(bearer)
+            except att.ATT_Error as error:
+                # If the first attribute is unreadable, return an error
+                # Otherwise return attributes up to this point
+                if not attributes:
+                    response = att.ATT_Error_Response(
+                        request_opcode_in_error=request.op_code,
+                        attribute_handle_in_error=attribute.handle,
+                        error_code=error.error_code,
+                    )
+                break
             # Check the attribute value size
             max_attribute_size = min(bearer.att_mtu - 6, 251)
             if len(attribute_value) > max_attribute_size:
@@ -997,12 +1018,6 @@ class Server(utils.EventEmitter):
                 length=len(attribute_data_list[0]),
                 attribute_data_list=b''.join(attribute_data_list),
             )
-        else:
-            response = att.ATT_Error_Response(
-                request_opcode_in_error=request.op_code,
-                attribute_handle_in_error=request.starting_handle,
-                error_code=att.ATT_ATTRIBUTE_NOT_FOUND_ERROR,
-            )
 
         self.send_response(bearer, response)
 
@@ -1027,9 +1042,17 @@ class Server(utils.EventEmitter):
                 )
                 self.send_response(bearer, response)
                 return
-            # No need to catch permission errors here, since these attributes
-            # must all be world-readable
-            attribute_value = await attribute.read_value(bearer)
+            try:
+                attribute_value = await attribute.read_value(bearer)
+            except att.ATT_Error as error:
+                # The whole request fails, naming the first unreadable attribute
+                response = att.ATT_Error_Response(
+                    request_opcode_in_error=request.op_code,
+                    attribute_handle_in_error=handle,
+                    error_code=error.error_code,
+                )
+                self.send_response(bearer, response)
+                return
             # Check the attribute value size
             max_attribute_size = min(bearer.att_mtu - 1, 251)
             if len(attribute_value) > max_attribute_size:
@@ -1069,9 +1092,17 @@ class Server(utils.EventEmitter):
                 )
                 self.send_response(bearer, response)
                 return
-            # No need to catch permission errors here, since these attributes
-            # must all be world-readable
-            attribute_value = await attribute.read_value(bearer)
+            try:
+                attribute_value = await attribute.read_value(bearer)
+            except att.ATT_Error as error:
+                # The whole request fails, naming the first unreadable attribute
+                response = att.ATT_Error_Response(
+                    request_opcode_in_error=request.op_code,
+                    attribute_handle_in_error=handle,
+                    error_code=error.error_code,
+                )
+                self.send_response(bearer, response)
+                return
             length = len(attribute_value)
             # Check the attribute value size
             max_attribute_size = min(bearer.att_mtu - 3, 251)
